@@ -112,7 +112,7 @@ struct Scenario {
 			if (v.GetCount() != k) { bad("count", s, std::to_string(v.GetCount())); ok = false; return; }
 			std::vector<std::string> names;
 			for (std::size_t i = 0; i < k; ++i) names.push_back(v.GetName(i));
-			if (!ascendingFold(names, true) && !ascendingFold(names, false)) { std::string all; for (auto& n : names) all += n + " "; bad("listing-order", s, all); ok = false; return; }
+			if (!ascendingFold(names, true)) { std::string all; for (auto& n : names) all += n + " "; bad("listing-order", s, all); ok = false; return; }
 			mc::makeDir("xall"); mc::makeDir("xone");
 			v.ExtractAllFiles("xall");
 			for (std::size_t i = 0; i < k; ++i) {
